@@ -394,13 +394,13 @@ def rule_r7(chk):
 
 
 def run(chk):
-    classes = rule_r1_r2(chk)
-    rule_r3(chk, classes)
-    rule_r4(chk)
-    rule_r5(chk)
-    rule_r7(chk)
+    classes = chk.guard(rule_r1_r2, chk)
+    chk.guard(rule_r3, chk, classes)
+    chk.guard(rule_r4, chk)
+    chk.guard(rule_r5, chk)
+    chk.guard(rule_r7, chk)
     from .. import variants
-    variants.apply(chk, "C17-R6", [("irispie.sequentials._simulate", "simulate")])
+    chk.guard(variants.apply, chk, "C17-R6", [("irispie.sequentials._simulate", "simulate")])
     chk.assumptions = [
         "positive real domain for log/roc/pct transforms",
         "xtring_from_human maps names to data cells one-to-one (checked under C04)",
